@@ -2161,7 +2161,10 @@ class Component(System):
             # TODO: replace 'fwd' with self.best_partial_deriv_direction(). Currently fails
             # when it equals 'rev' for directional derivatives.
             directions = ('fwd',)  # rev same as fwd for analytic jacobians
-            self.run_linearize(sub_do_ln=False)
+            # linearize with relevance switched off (as for the rest of the check), otherwise
+            # approximated partials that the current relevance prunes keep a stale value.
+            with self._relevance.active(False):
+                self.run_linearize(sub_do_ln=False)
 
         nondep_derivs = set()
         of_list = self._get_partials_ofs()
